@@ -627,9 +627,21 @@ def run_check(P: Prop, tier: str, seed: int, replay: str | None = None) -> int:
             violations.append((path, " no-failing-input-found"))
 
     # ---- 3. evidence -------------------------------------------------------------------
+    def _brief(o, depth=0):
+        """evidence samples stay small: long vectors are cut (the case itself is reproducible from tier + seed)"""
+        if isinstance(o, dict):
+            return {k: _brief(v, depth + 1) for k, v in o.items()}
+        if isinstance(o, (list, tuple)):
+            if len(o) > 40:
+                return [_brief(v, depth + 1) for v in o[:20]] + [f"... {len(o) - 20} more"]
+            return [_brief(v, depth + 1) for v in o]
+        if isinstance(o, str) and len(o) > 400:
+            return o[:400] + "..."
+        return o
+
     samples = []
     for c, io, mo, dis, orc in results[:: max(1, len(results) // 3)][:3]:
-        samples.append({"case": c, "implementation": io, "model": mo})
+        samples.append(_brief({"case": c, "implementation": io, "model": mo}))
     samples.append({"obligations": [t["name"] + " [" + t.get("kind", "full") + "]" for t in spec["theorems"]]})
     cov = {
         "obligations": obligations,
